@@ -2,8 +2,8 @@ from ..jobs import CH
 
 H = "vf.harness.walk"
 META = {
-    "bounds": {"quick": "8 program shapes with parallel blocks (busy gates as branches, gates, sequential sub-blocks, aliases, macro parameters, nested macros with coinciding parameter names, loops, nested parallel blocks, idle gates), "
-                        "register size 3, all four indices -1..3",
+    "bounds": {"quick": "10 program shapes with parallel blocks (busy gates as branches, gates, sequential sub-blocks, aliases, macro parameters, nested macros with coinciding parameter names, macros indexing by / into a parameter called several times, whole-register aliases, loops, nested parallel blocks, idle gates), "
+                        "register size 3, all four indices -1..3; two shapes also after another circuit (other register name and size) was analysed and emulated in the same process",
                "thorough": "register sizes 3 and 4, indices -1..4"},
     "assumptions": ["busy = the prepare_all/measure_all definitions of the harness gate set; idle = I_<gate> definitions from add_idle_gates"],
     "outside": ["repeated qubit arguments of one gate (rejected by the emulator, see C16)", "more than 3 branches"],
@@ -13,12 +13,14 @@ META = {
 def jobs(tier):
     q = tier == "quick"
     out = []
-    for shape in range(8):
+    for shape, warm in [(s, 0) for s in range(10)] + [(0, 1), (7, 1)] + ([] if q else [(3, 1), (8, 1)]):
         for size in (3,):
             for i in (range(0, size) if q else range(-1, size + 1)):
-                out.append(CH(name=f"c13_parallel_s{shape}_n{size}_i{i}", base="c13_parallel", func=f"{H}:c13_parallel",
+                if warm and q and i != 1:
+                    continue
+                out.append(CH(name=f"c13_parallel_s{shape}_n{size}_i{i}" + ("_warm" if warm else ""), base="c13_parallel", func=f"{H}:c13_parallel",
                               params=[("j", "int"), ("k", "int"), ("l", "int")], pre=([f"0 <= j < {size}", f"0 <= k < {size - 1}", f"0 <= l < {size}"] if q else [f"0 <= j < {size}", f"0 <= k < {size}", f"-1 <= l <= {size}"]),
-                              fixed={"shape": shape, "size": size, "i": i}, timeout=400 if q else 1500, twin=(shape != 7 and not (shape == 2 and i >= size - 1)),
+                              fixed={"shape": shape, "size": size, "i": i, "warm": warm}, timeout=400 if q else 1500, twin=(shape != 7 and not (shape == 2 and i >= size - 1)),
                               functions=["UsedQubitIndicesVisitor.visit_*", "UsedQubitIndicesVisitor.merge_into", "GateStatement.used_qubits", "GateDefinition.used_qubits",
                                          "IdleGateDefinition.used_qubits", "BusyGateDefinition.used_qubits", "DiscoverSubcircuits.visit_BlockStatement", "run_jaqal_circuit"],
                               note="emulator rejects (JaqalError) <=> some parallel block has two branches with intersecting reference qubit sets; accepted results "
